@@ -10,6 +10,9 @@ rc=0
 if [ "$prop" = C14 ]; then
     $SIM threads --tier $tier --seed $seed --evidence $out/shuttle.json --out $V/replays
     r=$?; [ $r -gt $rc ] && rc=$r
+    # auxiliary static probe (auto-trait matrix) for the compile-time clause; not simulation
+    $SIM aux --evidence $out/aux.json --replays $V/replays
+    r=$?; [ $r -gt $rc ] && rc=$r
 fi
 # ---- Miri: real threads under Miri's seeded scheduler with data-race + aliasing detection
 if [ "$tier" = thorough ]; then nscn=24; seeds=48; else nscn=6; seeds=12; fi
